@@ -10,8 +10,12 @@
    - what a step is given depends only on the data stores of its own inputs (frame property),
    - pruning does not change pulled values (cache on behaves like an unpruned cache),
    - the guards are monotone in progress: a BEGIN that is enabled stays enabled when other simulators' progress grows.
-   Missing (C04_partial): that the replies of a deterministic simulator coincide in both runs when they depend on its
-   inputs as well (equality of the inputs = the data-plane half, C03); debug mode and remote transport are not
+   - C04_pulled_values_same_in_every_interleaving (Sched/PullRun.v): the pulled half of the inputs of a step is the same
+     in two interleavings in which every provider produces the same outputs in its own order (each run's lookups are
+     lookups in that run's final caches, C03);
+   Missing (C04_partial): the same for the pushed half (the set of events a step receives is schedule independent by
+   C03's run-level event theorems, the order in which two sources' events are merged is not proved), and closing the
+   induction "same inputs -> same replies -> same outputs" for simulators whose replies depend on their inputs; debug mode and remote transport are not
    modelled and are compared by differential execution only. *)
 From Coq Require Import ZArith List Bool Arith.
 Import ListNotations.
